@@ -1,7 +1,6 @@
 import PxModel.StaticPath
 namespace Px.Static
 
-def utf8Decode (x : Bytes) : Option Str := (String.fromUTF8? ⟨x.toArray⟩).map (·.toList)
 def utf8Encode (s : Str) : Bytes := (String.ofList s).toUTF8.toList
 
 def strHex (s : Str) : String := hex (utf8Encode s)
@@ -25,14 +24,13 @@ def parseEntries : List String → Option (List (Str × Bytes × Bytes))
   | _ => none
 
 def mkEnv (mcl : Int) (tab : List (Str × Bytes × Bytes)) : Env :=
-  { utf8 := utf8Decode
-    fs := fun p => (tab.find? (fun e => e.1 == p)).map (fun e => e.2.1)
+  { fs := fun p => (tab.find? (fun e => e.1 == p)).map (fun e => e.2.1)
     mime := fun p => ((tab.find? (fun e => e.1 == p)).map (fun e => e.2.2)).getD (b "text/plain")
     gzip := toyGzip
     mcl := mcl }
 
 def outStr : Outcome → String
-  | .exc o => s!"exc valueError opened={optStrHex o}"
+  | .badRequest => "400 opened=None"
   | .notFound o => s!"404 opened={optStrHex o}"
   | .ok t r =>
     let hs := r.headers
